@@ -663,6 +663,7 @@ def run_live(shard, acc):
                 "import threading, time\nfor _ in range(3): threading.Thread(target=time.sleep, args=(1000,), daemon=True).start()\n"
                 "print('up', flush=True)\ntime.sleep(1000)"]
     viols = []
+    ps.process_iter.cache_clear()
     kids = [subprocess.Popen(threaded, env=env, stdout=subprocess.PIPE) for _ in range(3)]
     try:
         for k in kids:
